@@ -107,6 +107,15 @@ def run(repo, rep):
     rule_list_range_check(repo, rep, mod)
     rule_subkernel_padding(repo, rep, enc)
     rule_zdiv_search_space(repo, rep, enc, dec)
+    rep.clause("C07-k", "get_brick_weight: stride arithmetic on the caller's (possibly flipped, negative-stride) view stays signed or pointer-wide")
+    rule_brick_index(repo, rep, enc)
+    rep.clause("C07-l", "reorder: a source weight is fetched exactly for lanes inside the volume; every other lane is zero padding (guard evaluated on probe lanes)")
+    rule_lane_guard(repo, rep, enc)
+    rep.clause("C07-j", "locals of the Python encoder front end that are named after a side (ifm_ublock, ofm_ublock ..) are read from that side")
+    from .shared import binding_stem_lint as _bsl7
+
+    if _bsl7(repo, rep, "C07-j", ["weight_compressor"]) < 2:
+        raise AnalysisError("weight_compressor: fewer than 2 side-named bindings found")
 
     # ---------------------------------------------------------------- b
     n_assert = 0
@@ -585,6 +594,68 @@ def rule_subkernel_padding(repo, rep, enc):
     rep.check(wrong is None, "C07-f", site, f"sub-kernel elements are padded to 2 / 4 (part-kernel, 16- / 8-bit IFM), 4 (depthwise), 1 (depth-first) on {pts} points",
               (f"is_partkernel={wrong[0]} is_depthwise={wrong[1]} ifm_bitdepth={wrong[2]}: {wrong[3]} elements become {wrong[4]}, the traversal fetches {wrong[5]}: every later weight of the stream sits at "
                "the wrong position in hardware order") if wrong else "")
+
+
+
+def rule_brick_index(repo, rep, enc):
+    """(k) get_brick_weight addresses the source volume through the strides of the caller's array view. Vela hands over flipped views
+    (transpose convolution: np.flip over H and W), whose strides are negative and whose base points at the last row / column: the
+    offset arithmetic must stay signed (pointer steps, int, ptrdiff_t) or pointer-wide. A 32-bit or narrower unsigned variable that
+    takes a stride product wraps to ~2^32 and indexes far outside the volume."""
+    site = f"{ENC}:get_brick_weight"
+    body = enc.body("get_brick_weight")
+    narrow_unsigned = ("uint32_t", "unsigned int", "unsigned", "uint16_t", "uint8_t", "unsigned short", "unsigned char", "const uint32_t", "const unsigned int")
+    n = 0
+    bad = []
+    for d in enc.walk(body):
+        if d.get("kind") == "VarDecl":
+            n += 1
+            qt = (d.get("type") or {}).get("qualType", "")
+            if qt.strip() in narrow_unsigned and "strides" in enc.text(d):
+                bad.append(f"`{enc.text(d).strip()[:90]}` ({qt})")
+        if d.get("kind") in ("CStyleCastExpr",) and ((d.get("type") or {}).get("qualType", "").strip() in narrow_unsigned) and "strides" in enc.text(d):
+            bad.append(f"cast `{enc.text(d).strip()[:60]}`")
+    uses = [x for x in enc.walk(body) if x.get("kind") == "MemberExpr" and x.get("name") == "strides"]
+    if not uses:
+        raise AnalysisError("get_brick_weight: no use of the view's strides found")
+    rep.check(not bad, "C07-k", site, f"stride arithmetic stays signed or pointer-wide ({len(uses)} stride reads, {n} locals)",
+              "; ".join(bad) + ": a negative stride (flipped transpose-convolution view) wraps to about 2^32 elements: out-of-bounds read of the weight volume")
+
+
+def rule_lane_guard(repo, rep, enc):
+    """(l) reorder() writes a source weight into a lane of the hardware-ordered stream only if the lane lies inside the volume
+    (ifm_z < ifm_depth, ofm_z < ofm_depth, ky < sub_height); all other lanes are zero padding. The guard of the statement that calls
+    get_brick_weight is evaluated (c_eval) on probe lanes inside and outside the volume - in particular OFM lanes beyond the depth but
+    inside the (unclipped) OFM block."""
+    from ..cast import CEvalError, c_eval
+
+    site = f"{ENC}:reorder"
+    body = enc.body("reorder")
+    ifs = [n for n in enc.walk(body) if n.get("kind") == "IfStmt" and len(n.get("inner", [])) >= 2 and "get_brick_weight" in enc.text(n["inner"][1]) and "get_brick_weight" not in enc.text(n["inner"][0])]
+    ifs = [n for n in ifs if not any(n is not o and any(x is n for x in enc.walk(o["inner"][1])) for o in ifs)] or ifs
+    inner = [n for n in ifs if not any(o is not n and any(x is o for x in enc.walk(n["inner"][1])) for o in ifs)]
+    if len(inner) != 1:
+        raise AnalysisError(f"reorder: the guard of the get_brick_weight call was not found ({len(inner)} candidates)")
+    cond = inner[0]["inner"][0]
+    wrong = []
+    pts = 0
+    for ifm_z, ifm_depth in ((0, 3), (2, 3), (3, 3), (7, 3)):
+        for ofm_z, ofm_depth, ofm_block_z, ofm_block_depth in ((0, 3, 0, 8), (2, 3, 0, 8), (3, 3, 0, 8), (7, 3, 0, 8), (9, 10, 8, 8), (10, 10, 8, 8), (15, 10, 8, 8)):
+            for ky, sub_height in ((0, 2), (1, 2), (2, 2)):
+                env = {"ifm_z": ifm_z, "ifm_depth": ifm_depth, "ofm_z": ofm_z, "ofm_depth": ofm_depth, "ofm_block_z": ofm_block_z, "ofm_block_depth": ofm_block_depth,
+                       "clipped_ofm_block_depth": min(ofm_block_depth, ofm_depth - ofm_block_z), "clipped_ifm_block_depth": 16, "ifm_block_depth": 16, "ifm_block_z": 0,
+                       "ky": ky, "sub_height": sub_height, "kx": 0, "sub_width": 1}
+                try:
+                    got = bool(c_eval(cond, env, enc))
+                except CEvalError as ex:
+                    raise AnalysisError(f"reorder: lane guard `{enc.text(cond)}` not evaluable: {ex}")
+                want = ifm_z < ifm_depth and ofm_z < ofm_depth and ky < sub_height
+                pts += 1
+                if got != want:
+                    wrong.append((env, got))
+    rep.check(not wrong, "C07-l", site, f"a source weight is fetched exactly for lanes inside the volume (ifm_z < ifm_depth, ofm_z < ofm_depth, ky < sub_height) on {pts} probe lanes",
+              (f"`{enc.text(cond)}` is {wrong[0][1]} for ifm_z={wrong[0][0]['ifm_z']}/{wrong[0][0]['ifm_depth']}, ofm_z={wrong[0][0]['ofm_z']}/{wrong[0][0]['ofm_depth']}, ky={wrong[0][0]['ky']}/{wrong[0][0]['sub_height']}: "
+               "a lane outside the volume is read from the neighbouring weights or beyond the buffer instead of being zero padding") if wrong else "")
 
 
 def rule_zdiv_search_space(repo, rep, enc, dec):
